@@ -10,7 +10,8 @@ for p in props:
     pid = p["id"]
     path = os.path.join(ROOT, "harness", "drivers", pid.lower() + ".py")
     meta = None
-    if os.path.exists(path):
+    approved = open(os.path.join(ROOT, "tools", "claimed.txt")).read().split()
+    if os.path.exists(path) and pid in approved:
         src = open(path).read()
         if "\nMANIFEST = " in src:
             ns = {}
